@@ -550,8 +550,22 @@ func c17Nil(r *core.Run, xc, txT *types.Named) {
 			continue
 		}
 		info := m.Pkg.TypesInfo
-		sp := &flow.Spec{W: w, CondTags: func(pkg *packages.Package, cond ast.Expr, branch bool) []flow.Tag {
-			be, ok := ast.Unparen(cond).(*ast.BinaryExpr)
+		var targetCond func(pkg *packages.Package, cond ast.Expr, branch bool) []flow.Tag
+		targetCond = func(pkg *packages.Package, cond ast.Expr, branch bool) []flow.Tag {
+			// (also as a predicate of the type with one returned comparison: `if !tx.hasLocalTx() { return nil }`)
+			c0 := ast.Unparen(cond)
+			if u, isNot := c0.(*ast.UnaryExpr); isNot && u.Op == token.NOT {
+				return targetCond(pkg, u.X, !branch)
+			}
+			if call, isCall := c0.(*ast.CallExpr); isCall {
+				if h := w.Info(core.Callee(pkg.TypesInfo, call)); h != nil && h.Pkg == m.Pkg && h.Decl.Body != nil && len(h.Decl.Body.List) == 1 {
+					if rs, isRet := h.Decl.Body.List[0].(*ast.ReturnStmt); isRet && len(rs.Results) == 1 {
+						return targetCond(h.Pkg, rs.Results[0], branch)
+					}
+				}
+				return nil
+			}
+			be, ok := c0.(*ast.BinaryExpr)
 			if !ok || (be.Op != token.EQL && be.Op != token.NEQ) || !isNilIdent(pkg.TypesInfo, be.Y) {
 				return nil
 			}
@@ -561,7 +575,8 @@ func c17Nil(r *core.Run, xc, txT *types.Named) {
 				}
 			}
 			return nil
-		}, Classify: func(pkg *packages.Package, call *ast.CallExpr, callee *types.Func) []flow.Tag {
+		}
+		sp := &flow.Spec{W: w, CondTags: targetCond, Classify: func(pkg *packages.Package, call *ast.CallExpr, callee *types.Func) []flow.Tag {
 			if sel, ok := ast.Unparen(call.Fun).(*ast.SelectorExpr); ok {
 				if fs, ok := ast.Unparen(sel.X).(*ast.SelectorExpr); ok && fs.Sel.Name == "target" {
 					if v, ok := info.Uses[fs.Sel].(*types.Var); ok && v.IsField() {
